@@ -64,7 +64,17 @@ type c19Opts struct {
 	methodCtx []string
 	incPub    bool
 	incUnpub  bool
+	keyCtx    bool // custom key-context map (WithKeyContext)
 }
+
+// c19CustomKeyCtx maps every key type to a context of its own.
+var c19CustomKeyCtx = func() map[string]string {
+	m := map[string]string{}
+	for t := range c19KeyCtx {
+		m[t] = "https://ctx.example/custom/" + t
+	}
+	return m
+}()
 
 // refProject is the independent projection of an internal document to the external DID document.
 func refProject(internal doc.Doc, did string, o c19Opts) map[string]interface{} {
@@ -114,6 +124,9 @@ func refProject(internal doc.Doc, did string, o c19Opts) map[string]interface{} 
 			}
 			vms = append(vms, vm)
 			c := c19KeyCtx[typ]
+			if o.keyCtx {
+				c = c19CustomKeyCtx[typ]
+			}
 			dup := false
 			for _, e := range keyCtx {
 				if e == c {
@@ -225,7 +238,7 @@ func c19KeyVariants(ver *fx.Version) []map[string]interface{} {
 
 func c19(r *hx.Run) {
 	fx.Quiet()
-	r.Rule = "(the generic doctransformer is run on the same jobs with plain options: document == internal document + id, same metadata, missing id refused) internal documents built from every validator-accepted key variant (6 key types x {Ed25519/P-256/secp256k1 JWK, base58} x 8 purpose sets), all ordered pairs of a 24-variant subset (thorough: triples of 10), service variants (string/list/object endpoint x extra members) singly and in pairs, alias lists, foreign members; resolution models over commitments {both, recovery only, none} x deactivated x anchor origin {nil, string, object} x version id x times x references; transformer options base x method context x operation lists; TransformDocument on the real transformer must equal the independent projection (own base58/multibase) and metadata computed from the model; the same relation through DocumentHandler.ResolveDocument for published and unpublished DIDs. Non-trivial: every distinct (document, model, options) triple."
+	r.Rule = "(handler configurations: create responses and long-form resolution under every combination of label, domain and namespace alias, ids per the rule documented in the handler; GetHint) (the generic doctransformer is run on the same jobs with plain options: document == internal document + id, same metadata, missing id refused) internal documents built from every validator-accepted key variant (6 key types x {Ed25519/P-256/secp256k1 JWK, base58} x 8 purpose sets), all ordered pairs of a 24-variant subset (thorough: triples of 10), service variants (string/list/object endpoint x extra members) singly and in pairs, alias lists, foreign members; resolution models over commitments {both, recovery only, none} x deactivated x anchor origin {nil, string, object} x version id x times x references; transformer options base x method context x operation lists x {default, custom} key-context map; TransformDocument on the real transformer must equal the independent projection (own base58/multibase) and metadata computed from the model; the same relation through DocumentHandler.ResolveDocument for published and unpublished DIDs. Non-trivial: every distinct (document, model, options) triple."
 	ver := fx.NewVersion(fx.DefaultProtocol(), nil)
 	keyVars := c19KeyVariants(ver)
 	r.Extra["key_variants"] = len(keyVars)
@@ -315,7 +328,10 @@ func c19(r *hx.Run) {
 		for _, mc := range [][]string{nil, {"https://method.example/ctx/v1"}} {
 			for _, ip := range []bool{false, true} {
 				for _, iu := range []bool{false, true} {
-					optsList = append(optsList, c19Opts{base, mc, ip, iu})
+					optsList = append(optsList, c19Opts{base, mc, ip, iu, false})
+					if ip == iu { // the custom key-context map with half of the option sets
+						optsList = append(optsList, c19Opts{base, mc, ip, iu, true})
+					}
 				}
 			}
 		}
@@ -351,7 +367,7 @@ func c19(r *hx.Run) {
 	r.Extra["option_sets"] = len(optsList)
 	hx.ParallelFor(len(jobs), func(ji int) {
 		j := jobs[ji]
-		caseID := fmt.Sprintf("%s|%s|base=%v|mctx=%d|pub=%v|unpub=%v|info=%d", j.d.name, j.rm.name, j.o.base, len(j.o.methodCtx), j.o.incPub, j.o.incUnpub, j.pi)
+		caseID := fmt.Sprintf("%s|%s|base=%v|mctx=%d|pub=%v|unpub=%v|kctx=%v|info=%d", j.d.name, j.rm.name, j.o.base, len(j.o.methodCtx), j.o.incPub, j.o.incUnpub, j.o.keyCtx, j.pi)
 		if !r.Want(caseID) {
 			return
 		}
@@ -370,6 +386,9 @@ func c19(r *hx.Run) {
 		topts = append(topts, didtransformer.WithBase(j.o.base), didtransformer.WithIncludePublishedOperations(j.o.incPub), didtransformer.WithIncludeUnpublishedOperations(j.o.incUnpub))
 		if j.o.methodCtx != nil {
 			topts = append(topts, didtransformer.WithMethodContext(j.o.methodCtx))
+		}
+		if j.o.keyCtx {
+			topts = append(topts, didtransformer.WithKeyContext(c19CustomKeyCtx))
 		}
 		var res *document.ResolutionResult
 		var err error
@@ -508,6 +527,7 @@ func c19(r *hx.Run) {
 
 	// through the document handler: published and unpublished DIDs
 	c19Handler(r)
+	c19HandlerConfigs(r)
 	r.Assumptions = append(r.Assumptions,
 		"the product documents x models x options is covered by two complete slices (every document with every option set and a rotating model; every model with every option set and 5 documents), not the full cube",
 		"Ed25519VerificationKey2018/2020 are only combined with Ed25519 JWKs or base58 material (other JWKs cannot be re-encoded)",
@@ -599,6 +619,117 @@ func c19Handler(r *hx.Run) {
 		if (md["deactivated"] == true) != rm.Deactivated {
 			r.Violation("handler-deactivated-flag", caseID, "deactivated flag differs", nil)
 		}
+	}
+}
+
+// c19HandlerConfigs drives create responses and long-form resolution through handlers configured with every combination
+// of label, domain and namespace alias. The expected ids follow the rule documented in the handler: an unpublished document
+// is identified by <ns>[:<label>]:<suffix>[:<initial state>]; a long-form result lists its short form as equivalent id; with
+// label and domain the domain-hinted id <ns>:<domain>:<label>:<suffix> is an equivalent id.
+func c19HandlerConfigs(r *hx.Run) {
+	const ns, alias = "did:sidetree", "did:alias"
+	pool := fx.NewPool(fx.Ed25519, fx.SHA256, "ok")
+	ver := fx.NewVersion(fx.DefaultProtocol(), nil)
+	client := fx.NewClient(ver)
+	createReq := pool.Get("C").Req
+	ct := fx.MustJSON(string(createReq)).(map[string]interface{})
+	delete(ct, "type")
+	initial := fx.B64(jcs.MustCanon(ct))
+	// the internal document of the create, through the real processor over a store holding only the create
+	rm0, err := ResolveImpl(client, pool.Suffix, []fx.Placed{{Op: pool.Get("C"), Time: 10, Num: 0, Published: true}})
+	if err != nil {
+		panic(err)
+	}
+	internal := doc.Plain(map[string]interface{}(rm0.Doc)).(map[string]interface{})
+	for _, label := range []string{"", "lbl"} {
+		for _, domain := range []string{"", "dom.example"} {
+			for _, withAlias := range []bool{false, true} {
+				var aliases []string
+				if withAlias {
+					aliases = []string{alias}
+				}
+				proc := processor.New("verif", fx.SliceStore(nil), client)
+				h := dochandler.New(ns, aliases, client, &recWriter{}, proc, fx.Metrics, dochandler.WithDomain(domain), dochandler.WithLabel(label))
+				shortID := ns + ":" + pool.Suffix
+				if label != "" {
+					shortID = ns + ":" + label + ":" + pool.Suffix
+				}
+				var hinted []interface{}
+				if label != "" && domain != "" {
+					hinted = []interface{}{ns + ":" + domain + ":" + label + ":" + pool.Suffix}
+				}
+				check := func(caseID string, res *document.ResolutionResult, err error, wantID string, wantEq []interface{}) {
+					r.Eval()
+					r.State()
+					r.Nontrivial(caseID)
+					if err != nil {
+						r.Violation("handler-config-error", caseID, err.Error(), nil)
+						return
+					}
+					want := refProject(internal, wantID, c19Opts{})
+					if canonOf(res.Document) != canonOf(want) {
+						r.Violation("handler-config-document:"+c19DiffKeys(res.Document, want), caseID, fmt.Sprintf("label=%q domain=%q\n  impl: %s\n  ref : %s", label, domain, hx.Trunc(canonOf(res.Document), 500), hx.Trunc(canonOf(want), 500)), nil)
+					}
+					md := doc.Plain(res.DocumentMetadata).(map[string]interface{})
+					method, _ := md["method"].(map[string]interface{})
+					if method["published"] != false || md["canonicalId"] != nil {
+						r.Violation("handler-config-published", caseID, fmt.Sprintf("unpublished result reports published=%v canonicalId=%v", method["published"], md["canonicalId"]), nil)
+					}
+					var gotEq []interface{}
+					if l, ok := md["equivalentId"].([]interface{}); ok {
+						gotEq = l
+					}
+					if canonOf(gotEq) != canonOf(wantEq) && !(len(gotEq) == 0 && len(wantEq) == 0) {
+						r.Violation("handler-config-equivalent-id", caseID, fmt.Sprintf("label=%q domain=%q: equivalentId %v, want %v", label, domain, gotEq, wantEq), nil)
+					}
+					if fmt.Sprint(method["updateCommitment"]) != rm0.UpdateCommitment || fmt.Sprint(method["recoveryCommitment"]) != rm0.RecoveryCommitment {
+						r.Violation("handler-config-commitments", caseID, "commitments differ from the create's", nil)
+					}
+				}
+				tag := fmt.Sprintf("handler-config|label=%s|domain=%s|alias=%v|", label, domain, withAlias)
+				if id := tag + "create-response"; r.Want(id) {
+					res, err := h.ProcessOperation(createReq, 0)
+					check(id, res, err, shortID, hinted)
+				}
+				if id := tag + "long-form"; r.Want(id) {
+					res, err := h.ResolveDocument(ns + ":" + pool.Suffix + ":" + initial)
+					check(id, res, err, shortID+":"+initial, append([]interface{}{shortID}, hinted...))
+				}
+				if withAlias {
+					// the alias names the same namespace: a DID under it resolves exactly when the DID under the namespace does
+					if id := tag + "alias-long-form"; r.Want(id) {
+						res, err := h.ResolveDocument(alias + ":" + pool.Suffix + ":" + initial)
+						r.Eval()
+						r.Nontrivial(id)
+						if err != nil || res == nil {
+							r.Violation("handler-config-alias", id, fmt.Sprintf("long-form DID under the configured alias does not resolve: %v", err), nil)
+						} else if rid, _ := res.Document["id"].(string); canonOf(res.Document) != canonOf(refProject(internal, rid, c19Opts{})) {
+							r.Violation("handler-config-alias-document", id, "document resolved under the alias is not the projection of the create's document under its own id", nil)
+						}
+					}
+				} else if id := tag + "unknown-namespace"; r.Want(id) {
+					if _, err := h.ResolveDocument(alias + ":" + pool.Suffix + ":" + initial); err == nil {
+						r.Violation("handler-config-foreign-namespace-accepted", id, "a DID under an unconfigured namespace resolves", nil)
+					}
+					r.Eval()
+				}
+			}
+		}
+	}
+	// GetHint: the text between namespace and suffix
+	for _, hint := range []string{"", "h", "dom.example:lbl", "a:b:c"} {
+		id := ns + ":" + pool.Suffix
+		if hint != "" {
+			id = ns + ":" + hint + ":" + pool.Suffix
+		}
+		got, err := dochandler.GetHint(id, ns, pool.Suffix)
+		r.Eval()
+		if err != nil || got != hint {
+			r.Violation("get-hint", "hint|"+hint, fmt.Sprintf("GetHint(%s) = %q, %v; want %q", id, got, err, hint), nil)
+		}
+	}
+	if _, err := dochandler.GetHint(ns+":other", ns, pool.Suffix); err == nil {
+		r.Violation("get-hint", "hint|missing-suffix", "GetHint accepts an id that does not contain the suffix", nil)
 	}
 }
 
